@@ -40,6 +40,11 @@ func glob(dir string, g string) ([]string, error) {
 	for _, f := range fs {
 		info, err := os.Stat(f)
 		if err != nil {
+			// One match that cannot be read (e.g. a dangling symlink) must
+			// not hide the other files the pattern matches
+			if len(fs) > 1 && os.IsNotExist(err) {
+				continue
+			}
 			return nil, err
 		}
 		if info.IsDir() {
